@@ -52,7 +52,9 @@ def _op(draw):
     if k == 8:
         return {"op": "selectmany", "on": on, "f": draw(st.integers(0, 1))}
     if k == 9:
-        return {"op": "metadata", "on": on, "d": draw(st.sampled_from([{}, {"m": 1}, {"m": 2, "n": "s"}]))}
+        return {"op": "metadata", "on": on, "d": draw(st.sampled_from([{}, {"m": 1}, {"m": 2, "n": "s"},
+                                                                       # a backend block that happens to use the key names of the query metadata
+                                                                       {"a": "backend"}, {"b": 77, "c": "backend"}]))}
     if k == 10:
         return {"op": "terminal", "on": on, "t": draw(st.integers(0, 3))}
     return {"op": "value", "on": on, "title": draw(st.sampled_from([None, "t"]))}
